@@ -54,6 +54,12 @@ def decoder_kind(ctx, ci, value, sl):
     """how is the slice consumed on its way into the stored value?"""
     chain = parent_chain(value, sl)
     calls = [n for n in chain if isinstance(n, ast.Call)]
+    # padding / concatenation between the slice and its decoder defeats strictness
+    for n in chain:
+        if isinstance(n, ast.BinOp) and isinstance(n.op, (ast.Add, ast.Mult)) and any(isinstance(c, ast.Call) for c in chain[:chain.index(n)]):
+            return LENIENT, 'the slice is concatenated/padded before decoding'
+        if isinstance(n, ast.Call) and isinstance(n.func, ast.Attribute) and n.func.attr in ('ljust', 'rjust', 'zfill', 'center', 'join'):
+            return LENIENT, 'the slice is padded (.%s) before decoding' % n.func.attr
     if not calls:
         return LENIENT, 'stored as is'
     inner = calls[-1]
@@ -234,10 +240,11 @@ def check(ctx):
                 tflows += 1
                 construct = stmt_text(n)
                 call = n.value
-                if isinstance(call, ast.Call) and isinstance(call.func, ast.Name) and call.func.id == 'StructUnpack' \
+                direct = isinstance(call, ast.Call) and len(call.args) == 2 and call.args[1] in raw_slices(call)
+                if direct and isinstance(call.func, ast.Name) and call.func.id == 'StructUnpack' \
                         and template_binds_struct_unpack(repo):
                     ctx.holds('R4-strict-decode', t.func, construct, 'generated block decodes with struct.unpack (strict)', t.lineno, clause='i')
-                elif isinstance(call, ast.Call) and call_name(call) in ('struct.unpack',):
+                elif direct and call_name(call) in ('struct.unpack',):
                     ctx.holds('R4-strict-decode', t.func, construct, 'generated block decodes with struct.unpack (strict)', t.lineno, clause='i')
                 else:
                     ctx.violation('R4-strict-decode', t.func, construct,
